@@ -8,6 +8,7 @@
 #include <setjmp.h>
 #include <signal.h>
 #include <sys/mman.h>
+#include <sys/resource.h>
 #include <sys/wait.h>
 #include <unistd.h>
 #include <dlfcn.h>
@@ -54,6 +55,20 @@ struct MemReader : public FileReader {
   }
 };
 
+struct MemDisk : public DiskInterface {
+  map<string, string> files;
+  TimeStamp Stat(const string& path, string* err) const override { return files.count(path) ? 1 : 0; }
+  bool MakeDir(const string&) override { return true; }
+  bool WriteFile(const string& path, const string& contents, bool) override { files[path] = contents; return true; }
+  Status ReadFile(const string& path, string* contents, string* err) override {
+    auto it = files.find(path);
+    if (it == files.end()) { *err = "No such file or directory"; return NotFound; }
+    *contents = it->second;
+    return Okay;
+  }
+  int RemoveFile(const string& path) override { return files.erase(path) ? 0 : 1; }
+};
+
 struct Counts { uint64_t accepted = 0, rejected = 0; };
 static Counts* g_counts;
 
@@ -91,9 +106,18 @@ static void RunDyndep(const string& in) {
   ManifestParser mp(&state, &r);
   string err;
   if (!mp.Load("build.ninja", &err)) abort();
-  DyndepFile ddf;
-  DyndepParser p(&state, &r, &ddf);
-  if (p.ParseTest(in, &err)) g_counts->accepted++; else g_counts->rejected++;
+  {
+    DyndepFile ddf;
+    DyndepParser p(&state, &r, &ddf);
+    if (p.ParseTest(in, &err)) g_counts->accepted++; else g_counts->rejected++;
+  }
+  // ... and through the loader, which applies the parsed information to the graph
+  MemDisk md;
+  md.files["dd"] = in;
+  DyndepLoader loader(&state, &md);
+  DyndepFile ddf2;
+  err.clear();
+  loader.LoadDyndeps(state.GetNode("dd", 0), &ddf2, &err);
 }
 
 static vfs::Disk g_disk;
@@ -133,25 +157,36 @@ static void RunShowIncludes(const string& in) {
   }
 }
 
-static void RunMakeflags(const string& in) {
+// A NUL-terminated copy in a heap block of exactly the needed size: reading one byte past the
+// terminator is visible to ASan (std::string's inline buffer would hide it).
+struct ExactCStr {
+  char* p;
+  explicit ExactCStr(const string& s) : p((char*)malloc(s.size() + 1)) { memcpy(p, s.data(), s.size()); p[s.size()] = 0; }
+  ~ExactCStr() { free(p); }
+};
+
+static void RunMakeflags(const string& in0) {
+  ExactCStr in(in0);
   Jobserver::Config c1, c2;
   string err;
-  bool a = Jobserver::ParseMakeFlagsValue(in.c_str(), &c1, &err);
-  bool b = Jobserver::ParseNativeMakeFlagsValue(in.c_str(), &c2, &err);
+  bool a = Jobserver::ParseMakeFlagsValue(in.p, &c1, &err);
+  bool b = Jobserver::ParseNativeMakeFlagsValue(in.p, &c2, &err);
   if (a || b) g_counts->accepted++; else g_counts->rejected++;
 }
 
 static void RunNinjaStatus(const string& in) {
   BuildConfig config;
   StatusPrinter sp(config);
-  string s = sp.FormatProgressStatus(in.c_str(), 1234);
+  ExactCStr fmt(in);
+  string s = sp.FormatProgressStatus(fmt.p, 1234);
   (void)s;
   g_counts->accepted++;
 }
 
 static void RunStatusOpt(const string& in) {
   BuildConfig config;
-  config.progress_status_format = in.c_str();
+  ExactCStr fmt(in);
+  config.progress_status_format = fmt.p;
   StatusPrinter sp(config);  // Fatal() on an invalid format
   for (const char* v : {"started", "finished", "total", "running", "remaining", "percent", "rate", "elapsed"})
     (void)v;
@@ -246,7 +281,7 @@ static vector<Format> Formats() {
   f.push_back({"dyndep",
                {"ninja_dyndep_version = 1\n", "ninja_dyndep_version = 1.0\n", "ninja_dyndep_version = 2\n", "build out: dyndep",
                 " | ", "in2", " out2", "\n", "  restat = 1\n", "build ", "out", ":", " dyndep", "$", "$\n", "#c\n", "x = 1\n",
-                string(1, '\0'), "\r\n", " out2x"},
+                string(1, '\0'), "\r\n", " out2x", "in", "out2x", "dd", "build in: dyndep\n", "build out2x: dyndep\n"},
                RunDyndep});
   f.push_back({"ninja_log",
                {"# ninja log v7\n", "# ninja log v6\n", "# ninja log v", "1", "\t", "a", "\n", "99999999999999999999", "-1",
@@ -348,6 +383,7 @@ int main(int argc, char** argv) {
   }
 
   uint64_t total_inputs = 0, crashes = 0;
+  bool stopped_early = false;  // enough crashing inputs collected: the verdict is clear
   string first_bad;
   int first_bad_status = 0;
   vector<string> all_bad;
@@ -361,6 +397,8 @@ int main(int argc, char** argv) {
       sh->done = 0;
       pid_t pid = fork();
       if (pid == 0) {
+        struct rlimit nocore = {0, 0};
+        setrlimit(RLIMIT_CORE, &nocore);
         uint64_t processed = 0;
         for (uint64_t idx = next; idx < n; idx += nshards) {
           sh->current = idx;
@@ -379,19 +417,22 @@ int main(int argc, char** argv) {
       // died on sh->current
       uint64_t bad = sh->current;
       crashes++;
+      if (crashes >= 25) { stopped_early = true; }
       string in = Compose(*fmt, bad, len);
       if (all_bad.size() < 5) all_bad.push_back(in);
       if (first_bad.empty() && crashes == 1) { first_bad = in; first_bad_status = st; }
       next = bad + nshards;
+      if (stopped_early) break;
     }
+    if (stopped_early) break;
     for (uint64_t idx = (uint64_t)shard; idx < n; idx += nshards) total_inputs++;
   }
   string bads;
   for (auto& b : all_bad) bads += (bads.empty() ? "" : ",") + string("\"") + vx::Hex(b) + "\"";
   dprintf(report_fd, "{\"format\":\"%s\",\"inputs\":%llu,\"accepted\":%llu,\"rejected\":%llu,\"crashes\":%llu,\"first_bad\":\"%s\","
-                     "\"first_bad_status\":%d,\"bad_inputs\":[%s]}\n",
+                     "\"first_bad_status\":%d,\"stopped_early\":%d,\"bad_inputs\":[%s]}\n",
           fmt->name, (unsigned long long)total_inputs, (unsigned long long)sh->counts.accepted,
-          (unsigned long long)sh->counts.rejected, (unsigned long long)crashes, vx::Hex(first_bad).c_str(), first_bad_status,
+          (unsigned long long)sh->counts.rejected, (unsigned long long)crashes, vx::Hex(first_bad).c_str(), first_bad_status, (int)stopped_early,
           bads.c_str());
   return 0;
 }
